@@ -2,15 +2,16 @@ package c11
 
 import (
 	"os"
+	"runtime"
 	"testing"
 
 	"verif/harness/pbt"
 )
 
 var (
-	inboundPart  = pbt.Part[Case]{Name: "sched-inbound", Quick: 24000, Thorough: 400000, Gen: genCase(layerInbound), Check: checkScheduled}
-	subgraphPart = pbt.Part[Case]{Name: "sched-subgraph", Quick: 16000, Thorough: 260000, Gen: genCase(layerSubgraph), Check: checkScheduled}
-	bothPart     = pbt.Part[Case]{Name: "sched-both", Quick: 16000, Thorough: 260000, Gen: genCase(layerBoth), Check: checkScheduled}
+	inboundPart  = pbt.Part[Case]{Name: "sched-inbound", Quick: 40000, Thorough: 800000, Gen: genCase(layerInbound), Check: checkScheduled}
+	subgraphPart = pbt.Part[Case]{Name: "sched-subgraph", Quick: 24000, Thorough: 500000, Gen: genCase(layerSubgraph), Check: checkScheduled}
+	bothPart     = pbt.Part[Case]{Name: "sched-both", Quick: 36000, Thorough: 800000, Gen: genCase(layerBoth), Check: checkScheduled}
 )
 
 // TestProp is the entry point the driver runs in every shard.
@@ -27,7 +28,7 @@ func TestProp(t *testing.T) {
 	if os.Getenv("VERIF_RACE") == "1" {
 		// race-detector build (thorough only): real goroutines, no scheduler
 		r.Regress(dispatch())
-		stressRun(t, r, 3000, 60000)
+		stressRun(t, r, 3000, 100000)
 		return
 	}
 	r.RequireLabel("shared", "joined:inbound-follower", "joined:subgraph-follower", "parked:before_add", "parked:finish_ok", "parked:before_close",
@@ -35,10 +36,14 @@ func TestProp(t *testing.T) {
 		"optype:mutation", "cancel:fired:waiting-for-leader")
 	r.Regress(dispatch())
 	r.RunProbes(probes())
+	// the scheduled parts have one or two runnable goroutines at a time; fewer Ps make the
+	// stop-the-world goroutine snapshots cheap on a shared machine
+	procs := runtime.GOMAXPROCS(4)
 	inboundPart.Run(r)
 	subgraphPart.Run(r)
 	bothPart.Run(r)
-	stressRun(t, r, 1500, 30000)
+	runtime.GOMAXPROCS(procs)
+	stressRun(t, r, 5000, 160000)
 }
 
 func TestReplay(t *testing.T) { pbt.StdReplay(t, "C11", dispatch()) }
